@@ -1,5 +1,289 @@
 /-
-  Props/C09.lean — property theorems for C09 (stub; to be filled in).
+  Props/C09.lean — C09: schema→code output executes and is equivalent to the schema (partial).
+
+  What is proved here is about the Lean model of `json_schema_mapping.py` (schema → code direction,
+  `Sem/SchemaToCode.lean`) and of CPython's string-literal lexing (`Sem/PyLex.lean`); the
+  `schemacode` correspondence suite ties both to the working tree on every run.  Whether the whole
+  emitted text *compiles* is decided by CPython's parser at run time (the partial residue).
+
+  The code violates the full statement today; per DESIGN §5.1 the full statements are `def … : Prop`,
+  the `_partial` theorems carry an explicit decidable exclusion of exactly the known-finding region,
+  and each finding has a kernel-checked counterexample.
 -/
+import TypedpyModel.Lemmas.PyLex
+import TypedpyModel.Lemmas.SchemaToCode
 namespace Typedpy.C09
+open Typedpy Typedpy.PyLex
+
+/-! ## text: the string literals the generator emits -/
+
+/-- the string has no `'`, backslash, newline, carriage return or NUL -/
+def NoQuoteBackslashNewline (s : String) : Prop := ∀ c ∈ s.toList, plainChar c = true
+
+/-- the description has no backslash, carriage return or NUL and no `"""` -/
+def DocSafe (d : String) : Prop := (∀ c ∈ d.toList, docChar c = true) ∧ noTriple d.toList = true
+
+/-- full statement (false today): every string a schema can carry survives plain quoting -/
+def wrap_val_statement : Prop := ∀ s : String, pyLexStr (wrapVal s) = some s
+/-- full statement (false today): every description becomes the docstring it was meant to be -/
+def description_statement : Prop := ∀ d : String, pyLexStr (docWrap d) = some (docValue d)
+
+/-- `wrap_val` (used for `pattern` and for `str` defaults) is faithful on every string without
+    quote / backslash / newline — all lengths, all other characters incl. non-ASCII -/
+theorem wrap_val_safe (s : String) (h : NoQuoteBackslashNewline s) :
+    pyLexStr (wrapVal s) = some s := by
+  simp only [pyLexStr, wrapVal, String.toList_ofList, lexSrc_wrapL s.toList h, Option.map_some,
+    String.ofList_toList]
+
+/-- the docstring template is faithful on every description without backslash / CR / `"""` -/
+theorem description_safe (d : String) (h : DocSafe d) :
+    pyLexStr (docWrap d) = some (docValue d) := by
+  simp only [pyLexStr, docWrap, docValue, String.toList_ofList, lexSrc_docWrapL d.toList h.1 h.2,
+    Option.map_some]
+
+/-- the literal emitted for a `pattern` is faithful when the pattern is plain -/
+theorem pattern_site_partial (pr : Char → Bool) (lo hi : Option Nat) (p : String)
+    (h : NoQuoteBackslashNewline p) :
+    ∀ site ∈ stringSites pr (.str lo hi (some p)), site.faithful = true := by
+  intro site hs
+  simp only [stringSites, List.mem_singleton] at hs
+  subst hs
+  simp [StringSite.faithful, wrap_val_safe p h]
+
+/-- the literal emitted for a `str` default is faithful when the default is plain -/
+theorem default_site_partial (pr : Char → Bool) (d : String) (h : NoQuoteBackslashNewline d) :
+    ∀ site ∈ defaultSites pr (.str d), site.faithful = true := by
+  intro site hs
+  simp only [defaultSites, List.mem_singleton] at hs
+  subst hs
+  simp [StringSite.faithful, wrap_val_safe d h]
+
+theorem description_site_partial (d : String) (h : DocSafe d) :
+    (descriptionSite d).faithful = true := by
+  simp [StringSite.faithful, descriptionSite, description_safe d h]
+
+/-- `repr(str)` — which is what list formatting applies to enum values, `_required` names and
+    list/dict defaults — is faithful for EVERY string (all characters, whatever `str.isprintable`
+    answers): these sites cannot break the generated source -/
+theorem repr_safe (pr : Char → Bool) (s : String) : pyLexStr (pyRepr pr s) = some s := by
+  simp only [pyLexStr, pyRepr, String.toList_ofList, lexSrc_pyReprL, Option.map_some,
+    String.ofList_toList]
+
+mutual
+theorem reprSites_faithful (pr : Char → Bool) (site : String) :
+    ∀ (v : PyVal) (x : StringSite), x ∈ reprSites pr site v → x.faithful = true
+  | .str s, x, hx => by
+    simp only [reprSites, List.mem_singleton] at hx
+    subst hx
+    simp [StringSite.faithful, repr_safe]
+  | .list xs, x, hx => reprSitesL_faithful pr site xs x (by simpa [reprSites] using hx)
+  | .dict kvs, x, hx => reprSitesKV_faithful pr site kvs x (by simpa [reprSites] using hx)
+  | .none, _, hx => by simp [reprSites] at hx
+  | .bool _, _, hx => by simp [reprSites] at hx
+  | .int _, _, hx => by simp [reprSites] at hx
+  | .float _, _, hx => by simp [reprSites] at hx
+  | .dec _, _, hx => by simp [reprSites] at hx
+  | .tuple _, _, hx => by simp [reprSites] at hx
+  | .set _ _, _, hx => by simp [reprSites] at hx
+  | .deque _, _, hx => by simp [reprSites] at hx
+  | .enumv _ _, _, hx => by simp [reprSites] at hx
+  | .inst _ _, _, hx => by simp [reprSites] at hx
+  | .opaque _, _, hx => by simp [reprSites] at hx
+theorem reprSitesL_faithful (pr : Char → Bool) (site : String) :
+    ∀ (xs : List PyVal) (x : StringSite), x ∈ reprSitesL pr site xs → x.faithful = true
+  | [], _, hx => by simp [reprSitesL] at hx
+  | v :: vs, x, hx => by
+    simp only [reprSitesL, List.mem_append] at hx
+    rcases hx with hx | hx
+    · exact reprSites_faithful pr site v x hx
+    · exact reprSitesL_faithful pr site vs x hx
+theorem reprSitesKV_faithful (pr : Char → Bool) (site : String) :
+    ∀ (kvs : List (PyVal × PyVal)) (x : StringSite), x ∈ reprSitesKV pr site kvs → x.faithful = true
+  | [], _, hx => by simp [reprSitesKV] at hx
+  | (k, v) :: rest, x, hx => by
+    simp only [reprSitesKV, List.mem_append] at hx
+    rcases hx with (hx | hx) | hx
+    · exact reprSites_faithful pr site k x hx
+    · exact reprSites_faithful pr site v x hx
+    · exact reprSitesKV_faithful pr site rest x hx
+end
+
+/-- enum members of any type and nesting never produce a broken literal (so there is no
+    `unescaped:enum` finding: the expected defect does not exist for this site) -/
+theorem enum_site_faithful (pr : Char → Bool) (vs : List PyVal) :
+    ∀ x ∈ stringSites pr (.enum vs), x.faithful = true := by
+  intro x hx
+  exact reprSitesL_faithful pr "enum" vs x (by simpa [stringSites] using hx)
+
+/-- the `_required = [...]` list never produces a broken literal -/
+theorem required_site_faithful (pr : Char → Bool) (names : List String) :
+    ∀ x ∈ namesSites pr names, x.faithful = true := by
+  induction names with
+  | nil => intro x hx; simp [namesSites] at hx
+  | cons n r ih =>
+    intro x hx
+    simp only [namesSites, List.mem_cons] at hx
+    rcases hx with rfl | hx
+    · simp [StringSite.faithful, repr_safe]
+    · exact ih x hx
+
+/-- a list / dict default (emitted as `lambda: <repr>`) never produces a broken literal -/
+theorem default_repr_site_faithful (pr : Char → Bool) (v : PyVal) (h : ∀ s, v ≠ .str s) :
+    ∀ x ∈ defaultSites pr v, x.faithful = true := by
+  intro x hx
+  cases v with
+  | str s => exact absurd rfl (h s)
+  | _ => exact reprSites_faithful pr "default-repr" _ x (by simpa [defaultSites] using hx)
+
+/-! ### kernel-checked counterexamples (known findings `unescaped:<site>`) -/
+
+/-- `'` in a pattern: the emitted literal closes early (the source does not compile) -/
+theorem unescaped_pattern_quote :
+    (stringSites (fun _ => true) (.str none none (some "it's"))).all (·.faithful) = false := by decide
+/-- backslash in a pattern: `\b` silently becomes a backspace (a different regex) -/
+theorem unescaped_pattern_backslash : pyLexStr (wrapVal "\\bword\\b") = some "\x08word\x08" := by
+  decide
+/-- trailing backslash: escapes the closing quote, unterminated literal -/
+theorem unescaped_pattern_trailing_backslash : pyLexStr (wrapVal "a\\") = none := by decide
+/-- raw newline inside a short literal -/
+theorem unescaped_pattern_newline : pyLexStr (wrapVal "a\nb") = none := by decide
+theorem unescaped_default_quote :
+    (defaultSites (fun _ => true) (.str "it's")).all (·.faithful) = false := by decide
+theorem unescaped_default_backslash_n : pyLexStr (wrapVal "a\\nb") = some "a\nb" := by decide
+theorem unescaped_default_newline : pyLexStr (wrapVal "a\nb") = none := by decide
+/-- `"""` in a description ends the docstring early -/
+theorem unescaped_description_triple : (descriptionSite "say \"\"\"hi\"\"\"").faithful = false := by
+  decide
+/-- a description ending in a backslash swallows the newline of the template -/
+theorem unescaped_description_trailing_backslash :
+    pyLexStr (docWrap "path\\") = some "\n    path    " := by decide
+/-- backslash escapes in a description are interpreted -/
+theorem unescaped_description_escape : (descriptionSite "a\\tb").faithful = false := by decide
+
+theorem wrap_val_statement_false : ¬ wrap_val_statement := by
+  intro h
+  have := h "it's"
+  revert this
+  decide
+theorem description_statement_false : ¬ description_statement := by
+  intro h
+  have := h "say \"\"\"hi\"\"\""
+  revert this
+  decide
+
+/-- enum values, `_required` and list/dict defaults go through `repr` (list formatting), which
+    escapes: hostile strings are faithful there (no `unescaped:enum` finding) -/
+theorem enum_repr_examples :
+    (stringSites (fun _ => true)
+      (.enum [.str "it's", .str "a\\b", .str "x\ny", .str "q\"'z", .str "é\t"])).all (·.faithful)
+      = true := by decide
+
+/-! ## semantics: schema → generated declaration → schema -/
+
+/-- full statement (false today): mapping the generated declaration back gives the schema -/
+def roundtrip_statement : Prop :=
+  ∀ (ρ : String → FieldDecl), RefsAreClasses ρ → ∀ s : Schema,
+    normReq (toSchemaF (schemaToDecl ρ s)) = normReq s
+
+/-- on the code fragment (`issues s = []`, i.e. outside the listed finding regions) the round trip
+    schema → `convert_to_field_code`+eval → `convert_to_schema` is the identity up to the order
+    of every `required` list; all schemas, any nesting depth -/
+theorem schemaToDecl_inverse (ρ : String → FieldDecl) (hρ : RefsAreClasses ρ) (s : Schema)
+    (h : inCodeFragment s = true) : normReq (toSchemaF (schemaToDecl ρ s)) = normReq s :=
+  inverse_core ρ hρ s (by simpa [inCodeFragment] using h)
+
+/-- the same for the generated class: `structure_to_schema (exec (schema_to_struct_code name s))` -/
+theorem schemaToClass_inverse (ρ : String → FieldDecl) (hρ : RefsAreClasses ρ) (name : String)
+    (props : List (String × Schema)) (defaults : List (String × PyVal))
+    (required : Option (List String)) (addl : Bool)
+    (h : inCodeFragment (.obj props defaults required addl) = true) :
+    normReq (toSchemaClass (schemaToClass ρ name (.obj props defaults required addl)))
+      = normReq (.obj props defaults required addl) :=
+  class_roundtrip ρ hρ name props defaults required addl (by simpa [inCodeFragment] using h)
+
+/-- `normReq` only reorders: the canonical `required` has the same members -/
+theorem canonReq_mem (names req : List String) (n : String) (h : n ∈ names) :
+    n ∈ canonReq names req ↔ n ∈ req := by
+  simp [canonReq, List.mem_filter, h]
+
+def rho0 : String → FieldDecl := envResolver []
+theorem rho0_classes : RefsAreClasses rho0 := fun _ => ⟨_, _, _, rfl, rfl, rfl⟩
+
+/-- `minItems` / `maxItems` of arrays are dropped (finding `roundtrip:array-size-dropped`) -/
+theorem roundtrip_counterexample_array_size :
+    normReq (toSchemaF (schemaToDecl rho0 (.arrAny { min := some 1 }))) ≠ normReq (.arrAny { min := some 1 }) := by
+  simp [schemaToDecl, toSchemaF, arraySize, normReq]
+/-- a property with a default comes back as required (finding `roundtrip:default-forces-required`) -/
+theorem roundtrip_counterexample_default_required :
+    normReq (toSchemaF (schemaToDecl rho0
+      (.obj [("a", .bool), ("b", .bool)] [("a", .bool true)] (some ["b"]) true)))
+    ≠ normReq (.obj [("a", .bool), ("b", .bool)] [("a", .bool true)] (some ["b"]) true) := by
+  simp [schemaToDecl, schemaToDeclP, toSchemaF, toSchemaP, structShape, collapses, sameSet, declRequired,
+    inlineOpts, schemaRequired, normReq, normReqP, canonReq]
+/-- absent `required` comes back as "all required" (finding `roundtrip:required-absent`) -/
+theorem roundtrip_counterexample_required_absent :
+    normReq (toSchemaF (schemaToDecl rho0 (.obj [("a", .bool), ("b", .bool)] [] none true)))
+    ≠ normReq (.obj [("a", .bool), ("b", .bool)] [] none true) := by
+  simp [schemaToDecl, schemaToDeclP, toSchemaF, toSchemaP, structShape, collapses, sameSet, declRequired,
+    inlineOpts, schemaRequired, normReq, normReqP]
+/-- an object with one required property and no additional properties collapses to the schema of
+    that property, retyped "object" when nested (finding `roundtrip:single-field-collapse`) -/
+theorem roundtrip_counterexample_single_field :
+    toSchemaF (schemaToDecl rho0 (.obj [("a", .bool)] [] (some ["a"]) false)) = .retyped .bool := by
+  simp [schemaToDecl, schemaToDeclP, toSchemaF, toSchemaP, structShape, collapses, sameSet, declRequired,
+    inlineOpts]
+
+theorem roundtrip_statement_false : ¬ roundtrip_statement := fun h =>
+  roundtrip_counterexample_array_size (h rho0 rho0_classes _)
+
+/-! ## the caller's schema is not modified -/
+
+/-- full statement (false today) -/
+def required_not_mutated_statement : Prop := ∀ s : Schema, requiredAfter s = requiredBefore s
+
+/-- `schema_to_struct_code` leaves the caller's `required` list alone when no property that has a
+    default is listed in it -/
+theorem required_not_mutated (props : List (String × Schema)) (defaults : List (String × PyVal))
+    (req : List String) (addl : Bool)
+    (h : ∀ n ∈ defaults.map (·.1), n ∉ req) :
+    requiredAfter (.obj props defaults (some req) addl)
+      = requiredBefore (.obj props defaults (some req) addl) := by
+  simp only [requiredAfter, requiredBefore]
+  congr 1
+  apply requiredPost_id
+  intro n hn
+  simp only [List.mem_filter, List.contains_iff_mem] at hn
+  exact h n hn.2
+
+/-- finding `mutates-input:required`: a required property with a default is `remove`d from the
+    caller's list -/
+theorem required_mutated_counterexample :
+    requiredAfter (.obj [("a", .bool), ("b", .bool)] [("a", .bool true)] (some ["a", "b"]) true)
+      = some ["b"] := by decide
+theorem required_not_mutated_statement_false : ¬ required_not_mutated_statement := by
+  intro h
+  have := h (.obj [("a", .bool), ("b", .bool)] [("a", .bool true)] (some ["a", "b"]) true)
+  revert this
+  decide
+
+/-! ## non-vacuity -/
+
+def exampleSchema : Schema :=
+  .obj [("name", .str (some 1) (some 8) (some "^[A-Za-z]+$")),
+        ("tags", .arrOf (.enum [.str "a", .int 2]) { uniq := true }),
+        ("pos", .arrPos [.num true (some 5) none (some ⟨10, 1⟩) true, .num false none none none false] false {}),
+        ("inner", .obj [("x", .num true none none none false), ("y", .bool)] [("y", .bool false)]
+                     (some ["y", "x"]) false),
+        ("choice", .anyOf [.ref "D", .notS [.str none none none]]),
+        ("m", .mapOf (.num true none none none false) (some 1) none)]
+       [("name", .str "bob")] (some ["tags", "name"]) true
+
+theorem roundtrip_example :
+    inCodeFragment exampleSchema = true ∧
+    normReq (toSchemaClass (schemaToClass rho0 "Foo" exampleSchema)) = normReq exampleSchema :=
+  ⟨by decide, schemaToClass_inverse rho0 rho0_classes "Foo" _ _ _ _ (by decide)⟩
+
+theorem wrap_val_example : pyLexStr (wrapVal "^[A-Za-zé]+\"$") = some "^[A-Za-zé]+\"$" :=
+  wrap_val_safe _ (by unfold NoQuoteBackslashNewline; decide)
+
 end Typedpy.C09
